@@ -19,6 +19,8 @@ def obligations(tier):
                       bounds=f"the chart under test was parsed with {what}"))
     obs.append(Ob("C19.one_op.chart[player2=rhythm,bass-only]", "CH", "harness.h_chart", "immutability", 1500, {"VF_CV": 3}, funcs=fns,
                   bounds="a chart whose [Song] says Player2 = rhythm and which has DoubleBass tracks but no DoubleRhythm track; look-ups by RHYTHM / BASS / GUITAR"))
+    obs.append(Ob("C19.one_op.chart[note-less tracks]", "CH", "harness.h_chart", "immutability", 1500, {"VF_CV": 5}, funcs=fns,
+                  bounds="a chart with tracks that have no notes (a phrase only / an empty section) next to tracks with notes; every operation kind, failing rate queries included"))
     obs.append(Ob("C19.one_op.chart[600-note track]", "CH", "harness.h_chart", "immutability", 2400, {"VF_CV": 4, "VF_OP1SET": "0,1" if tier == "quick" else "0,1,2,3,4,5,6,7,8"}, funcs=fns,
                   bounds="a chart with a 600-note track (size-triggered behaviour); rate queries in all bound forms with tick bounds <= 2, look-ups"))
     if tier == "thorough":
@@ -43,6 +45,6 @@ LEVEL_TEXT = ("CrossHair drives a really parsed chart (deep-copied per path) thr
 LEVEL_NOTE = "One fixed small chart (2 tracks); operation sequences of length 1 (quick) / 2 (thorough). Trusted: S1, S3, S4; copy.deepcopy reproduces the parsed object graph."
 TECHNIQUE = CH_TECH
 EXPLANATION = "see obligation_table"
-BOUNDS = "operation sequences of length <=1 (quick) / <=2 (thorough); all instruments in thorough; 5 chart variants (default, empty selection, one selected track, Player2=rhythm with bass only, 600-note track)"
+BOUNDS = "operation sequences of length <=1 (quick) / <=2 (thorough); all instruments in thorough; 6 chart variants (default, empty selection, one selected track, Player2=rhythm with bass only, 600-note track, note-less tracks)"
 OUTSIDE = "longer sequences; charts of other shapes"
 ASSUMPTIONS = [S1, S3, S4]
